@@ -21,7 +21,7 @@ BIG = [1000, 65536, 2 ** 31 - 1]
 
 # ---------------------------------------------------------------- generation
 
-def gen_layout(rng, kind, via, max_inputs=8):
+def gen_layout(rng, kind, via, max_inputs=8, clean=False):
     """-> (srcs, inputs) ; inputs in InputList.getList order when via == 'create'"""
     n_in = rng.choice([1, 1, 2, 2, 3, 3, 4, 5, 6, 7, 8])
     n_in = min(n_in, max_inputs)
@@ -43,15 +43,15 @@ def gen_layout(rng, kind, via, max_inputs=8):
     inputs = []
     for sem, off in zip(sems, offs):
         want = WANT[sem]
-        if rng.random() < 0.07:
+        if not clean and rng.random() < 0.07:
             want = rng.choice([c for c in (1, 2, 3, 4) if c != want])
         cands = [i for i, (n, nc) in enumerate(srcs) if nc == want]
         if cands and rng.random() < 0.3:
             sid = rng.choice(cands)
         else:
-            srcs.append([rng.choice([0, 1, 2, 3, 3, 4, 5, 8]), want])
+            srcs.append([rng.choice([1, 2, 3, 3, 4, 5, 8] if clean else [0, 1, 2, 3, 3, 4, 5, 8]), want])
             sid = len(srcs) - 1
-        r = rng.random()
+        r = 1.0 if clean else rng.random()
         if r < 0.015:
             tgt = ['missing']
         elif r < 0.03:
@@ -107,15 +107,16 @@ def all_offsets(case):
     return offs
 
 
-def gen_case(rng, max_rows=4):
+def gen_case(rng, max_rows=4, rows=None, modes=(50, 30, 8, 9, 3), clean=False, max_inputs=8):
     kind = rng.choice(KINDS)
     via = 'create' if rng.random() < 0.65 else 'xml'
-    srcs, inputs = gen_layout(rng, kind, via)
+    srcs, inputs = gen_layout(rng, kind, via, max_inputs=max_inputs, clean=clean)
     case = {'kind': kind, 'via': via, 'srcs': srcs, 'inputs': inputs,
             'material': rng.choice([None, 1, 2])}
     nind = max(all_offsets(case)) + 1
     k = KK[kind]
-    rows = rng.choice([0, 1, 1, 2, 2, 3, max_rows])
+    if rows is None:
+        rows = rng.choice([0, 1, 1, 2, 2, 3, max_rows])
     if k == 1:
         vcounts = []
         for _ in range(rows):
@@ -134,7 +135,7 @@ def gen_case(rng, max_rows=4):
                 flat.append(rng.randint(0, 2))
             else:
                 flat.append(rng.randint(0, lim[o] - 1))
-    mode = rng.choices(['ok', 'oor', 'ragged', 'vcount', 'novertex'], [50, 30, 8, 9, 3])[0]
+    mode = rng.choices(['ok', 'oor', 'ragged', 'vcount', 'novertex'], list(modes))[0]
     case['mode'] = mode
     if mode == 'oor' and ncorners > 0 and eff:
         off, sem, sid = rng.choice(eff)
